@@ -88,6 +88,17 @@ class OptSort(Sort):
         return [z3.BoolSort()] + self.inner.comps()
 
 
+class UnionSort(Sort):
+    """str | <object of class cls>: (is_obj, str value, ref value)"""
+
+    def __init__(self, cls):
+        self.cls = cls
+        self.name = f"StrOr:{cls}"
+
+    def comps(self):
+        return [z3.BoolSort(), z3.StringSort(), Ref]
+
+
 class TupleSort(Sort):
     def __init__(self, items):
         self.items = list(items)
@@ -131,6 +142,8 @@ def parse_sort(s):
         return {"Bool": BOOL, "Int": INT, "Real": REAL, "Str": STR, "BV": BV}[s]
     if s.startswith("Ref:"):
         return RefSort(s[4:])
+    if s.startswith("StrOr:"):
+        return UnionSort(s[6:])
     if s == "Ref":
         return RefSort("object")
     if s.startswith("Opt[") and s.endswith("]"):
@@ -325,6 +338,11 @@ def coerce(v, sort):
             return V(sort, [null])
         if isinstance(v.sort, RefSort):
             return V(sort, v.comps)
+    if isinstance(sort, UnionSort):
+        if v.sort == STR:
+            return V(sort, [z3.BoolVal(False), v.z, null])
+        if isinstance(v.sort, RefSort):
+            return V(sort, [z3.BoolVal(True), z3.StringVal(""), v.z])
     if isinstance(sort, OptSort):
         if v.sort == NONE:
             d = sort.inner.fresh("optdummy")
@@ -358,6 +376,8 @@ def coerce(v, sort):
 
 
 def v_ite(c, a, b):
+    if a.sort != b.sort and a.sort in (INT, REAL, BOOL) and b.sort in (INT, REAL, BOOL) and REAL in (a.sort, b.sort):
+        a, b = coerce(a, REAL), coerce(b, REAL)
     if a.sort != b.sort:
         if a.sort == NONE or isinstance(b.sort, OptSort):
             a = coerce(a, b.sort)
